@@ -22,6 +22,9 @@ use std::io::Write;
 /// Samples are a pure function of the position, so that no 268 MB vector is needed.
 #[derive(Clone)]
 pub struct FnSource {
+    /// 0: tiny blocks, a few loud / quiet-noise / constant frames among silence; 1: quiet noise with ONE impulse
+    /// of 2^22 in the second block (a Rice quotient of 2^16 next to thousands of small ones)
+    pub kind: u8,
     pub bs: usize,
     pub n: usize,
     pub pos: usize,
@@ -40,6 +43,17 @@ fn mix(mut x: u64) -> u64 {
 
 impl FnSource {
     pub fn sample(&self, t: usize) -> i32 {
+        if self.kind == 1 {
+            let h = mix(self.seed ^ (t as u64).wrapping_mul(0x9e3779b97f4a7c15));
+            let f = t / self.bs;
+            if f == 1 {
+                if t == self.bs + self.bs / 3 {
+                    return 1 << 22;
+                }
+                return (h % 1537) as i32 - 768; // quotients 0..12 under parameter 7: they add up to about 1.5 * 2^16
+            }
+            return (h % 5) as i32 - 2;
+        }
         let f = t / self.bs;
         let h = mix(self.seed ^ (t as u64).wrapping_mul(0x9e3779b97f4a7c15));
         let full = 1i64 << (self.bps - 1);
@@ -117,18 +131,22 @@ pub fn cmd_long(a: &Args) {
     }
     let props: Vec<String> = a.get("props", "C01,C02,C04,C05,C08").split(',').map(str::to_string).collect();
     let mut w = std::io::BufWriter::new(std::fs::File::create(&out).unwrap());
-    // (frames, block size, width, last block length)
-    let cases: Vec<(usize, usize, usize, usize)> = if thorough {
-        vec![(0x20_0000 + 40, 32, 8, 7), (0x11_0000 + 9, 33, 16, 33), (70_000, 32, 12, 1)]
+    // (frames, block size, width, last block length, kind)
+    let cases: Vec<(usize, usize, usize, usize, u8)> = if thorough {
+        vec![(0x20_0000 + 40, 32, 8, 7, 0), (0x11_0000 + 9, 33, 16, 33, 0), (70_000, 32, 12, 1, 0), (3, 16384, 24, 50, 1), (4, 12288, 24, 12288, 1)]
     } else {
-        vec![(a.num("frames", 0x11_0000 + 37) as usize, 32, 8, 19)]
+        vec![(a.num("frames", 0x11_0000 + 37) as usize, 32, 8, 19, 0), (3, 16384, 24, 50, 1)]
     };
     let mut summary = vec![];
     let mut classes = BTreeSet::new();
-    for (ci, &(frames, bs, bps, last)) in cases.iter().enumerate() {
+    for (ci, &(frames, bs, bps, last, kind)) in cases.iter().enumerate() {
         let n = (frames - 1) * bs + last;
-        let src = FnSource { bs, n, pos: 0, bps, rate: 44100, seed: seed * 1000 + ci as u64 };
-        let cfg = Cfg { block_size: bs, ..Cfg::default() };
+        let src = FnSource { kind, bs, n, pos: 0, bps, rate: 44100, seed: seed * 1000 + ci as u64 };
+        let cfg = if kind == 1 {
+            Cfg { block_size: bs, max_parameter: 7, use_lpc: false, fixed_max_order: 1, partitions: None, ..Cfg::default() }
+        } else {
+            Cfg { block_size: bs, ..Cfg::default() }
+        };
         let id = format!("long-{seed}-{ci}");
         let st = encode_fn(&cfg, src.clone(), &Mode::St);
         let stream = match st {
@@ -210,6 +228,9 @@ pub fn cmd_long(a: &Args) {
                 pick.insert(v);
             }
         }
+        // frames of more than 4 KiB are not handed to TLC (minutes per frame): their length is pinned down by the
+        // frames after them, which must parse with valid CRCs at the offsets the lengths add up to
+        pick.retain(|&k| lens[k] <= 4096);
         // byte offset of each picked frame inside the stream
         let mut offs = vec![];
         {
